@@ -75,6 +75,9 @@ Calls == <<
   Call("BVExtract(b,1,1)", OpI("bv_extract", <<B>>, <<1, 1, 1>>), "", ""), Call("b[1:]", OpI("bv_extract", <<B>>, <<1, 1, 1>>), "", ""),
   Call("b[1]", OpI("bv_extract", <<B>>, <<1, 1, 1>>), "", ""),
   Call("p & q", Op("and", <<P, Q>>), "", ""), Call("p.And(q)", Op("and", <<P, Q>>), "", ""), Call("~p", Op("not", <<P>>), "", ""),
+  \* the empty sequence of bound variables in every spelling (a lazy iterable is always "truthy")
+  Call("ForAll(iter([]),p)", P, "", ""), Call("Exists(generator of nothing,And(p,q))", Op("and", <<P, Q>>), "", ""),
+  Call("ForAll(filter nothing,p)", P, "", ""),
   Call("x >= 2", Op("le", <<IntC(2), X>>), "", ""), Call("b & c & d", OpI("bv_and", <<OpI("bv_and", <<B, C>>, <<2>>), D>>, <<2>>), "", "") >>
 
 NCalls == Len(Calls)
